@@ -316,7 +316,7 @@ func JPEG(t *tape.Tape, lbl string) (data []byte, desc string) {
 		}
 		p = append(p, byte(ss), byte(se), byte(ah<<4|al))
 		data := entropy(t, l+".ent", blocks*len(comps)*maxH*maxV, !progressive || rep == 1 && t.Bool(l+".cover", 1, 2))
-		if rep > 1 && len(data) > 64 {
+		if rep >= 70 && len(data) > 64 {
 			data = data[:64]
 		}
 		for i := 0; i < rep; i++ {
@@ -335,7 +335,7 @@ func JPEG(t *tape.Tape, lbl string) (data []byte, desc string) {
 			if hostile && t.Bool(lbl+".badspec", 1, 3) {
 				ss, se = t.Draw(lbl+".ss", 64), t.Draw(lbl+".se", 64)
 			}
-			scan(lbl+".s0", all, ss, se, 0, 0, 1+t.Weighted(lbl+".rep", 8, 1, 1)*5)
+			scan(lbl+".s0", all, ss, se, 0, 0, tape.Pick(t, lbl+".rep", 1, 1, 1, 1, 2, 3, 6, 11))
 		} else {
 			for c := range all {
 				scan(fmt.Sprintf("%s.s%d", lbl, c), []int{c}, 0, 63, 0, 0, 1)
